@@ -136,6 +136,13 @@ def run(ctx):
                     oks = [e for e in r.effects if e[0].rsplit('::', 1)[-1] == 'ok_or_else']
                     if len(nexts) != N:
                         bad = 'makes %d next_element calls, the value has %d elements' % (len(nexts), N)
+                    # the element type requested from the format is the documented element type (a DQuat read through f32 loses 29 bits)
+                    want_el = element_type_name(tn.rsplit('::', 1)[-1])
+                    for e_ in r.effects:
+                        if e_[0].endswith('Try>::branch') and e_[1] and 'call:serde::de::SeqAccess::next_element' in str(e_[1][0][2]):
+                            mo = re.search(r'Option<([^<>]+)>', str(e_[1][0][1]))
+                            if not bad and (mo is None or want_el is None or mo.group(1).rsplit('::', 1)[-1] != want_el):
+                                bad = 'reads its elements as %s; the documented element type of %s is %s' % (mo.group(1) if mo else '?', tn.rsplit('::', 1)[-1], want_el)
                     # the Ok leaf
                     t = r.ret
                     leaf = None
@@ -172,8 +179,25 @@ def run(ctx):
                                 if not has or max(has) != k:
                                     bad = 'element %d of the value is built from sequence element(s) %s' % (k, has)
                                     break
+                                # ... and is that element itself, not a function of it (a mask lane is the canonical mask of the bool read)
+                                core_ = term
+                                while core_.op in ('m8', 'm16', 'm32', 'm64', 'extract') or (core_.op == 'mask' and core_.args and isinstance(core_.args[0], tm.T)):
+                                    core_ = core_.args[0]
+                                if core_.op not in ('field_of', 'top'):
+                                    bad = 'element %d of the value is %s: computed from the element read, not the element itself' % (k, tm.show(term, 0, 3)[:120])
+                                    break
                     if not bad:
-                        if len(oks) != N:
+                        inv = [e for e in r.effects if e[0].rsplit('::', 1)[-1] == 'invalid_length']
+                        if len(oks) != N and len(inv) == N and not oks:
+                            # the same handling written as a match: invalid_length(k, ..) is called directly on the None arm of element k
+                            for k, e in enumerate(inv):
+                                a0 = e[1][0] if e[1] else None
+                                mo = re.match(r'^(?:0x([0-9a-f]+)_\d+|d#(\d+))$', str(a0[2])) if a0 is not None else None
+                                val_ = None if mo is None else (int(mo.group(1), 16) if mo.group(1) is not None else int(mo.group(2)))
+                                if val_ != k:
+                                    bad = 'missing element %d is reported as invalid_length(%s)' % (k, a0[2] if a0 is not None else '?')
+                                    break
+                        elif len(oks) != N:
                             bad = '%d missing-element handlers for %d elements' % (len(oks), N)
                         else:
                             for k, e in enumerate(oks):
